@@ -20,7 +20,7 @@ import sympy as sp
 import z3
 
 from pyvc.contract import FunctionContract, Lemma, VC, Req
-from pyvc.sym import Unsupported
+from pyvc.sym import Unsupported, Sym
 from pyvc.spval import SpVal, SpBool, to_sp
 
 PROPERTY_ID = "C10"
@@ -129,9 +129,40 @@ def install_oracle(vc, regime, tag):
             s.add(sp_to_z3(f, env))
         s.add(z3.Not(goal) if truth else goal)
         ok = s.check() == z3.unsat
-        vc.check(f"{tag}::regime-decides-branch[{rel}]", bool(ok))
-        if not ok:
-            raise Unsupported(f"branch condition {rel} is not constant on the regime")
+        if ok:
+            vc.check(f"{tag}::regime-decides-branch[{rel}]", True)
+            return truth
+        # the code distinguishes two parts of the regime: both are explored (path fork on the z3 image of the relation,
+        # under the regime's facts); the analytic obligations that follow are probed at a point of the sub-regime
+        from pyvc import ctx
+        P = ctx.PATH
+        if not vc.ghost.get("sp_facts_in_pc"):
+            env0 = {}
+            for f in facts:
+                P.assume(Sym(sp_to_z3(f, env0), "b"))
+            for sym in set().union(*[f.free_symbols for f in facts]) if facts else ():
+                if sym.is_positive:
+                    P.assume(Sym(sp_to_z3(sym, env0) > 0, "b"))
+            vc.ghost["sp_facts_in_pc"] = True
+        for sym in rel.free_symbols:
+            if sym.is_positive:
+                P.assume(Sym(sp_to_z3(sym, env) > 0, "b"))
+        truth = P.decide(goal)
+        sub = vc.ghost.setdefault("sp_subregime", [])
+        sub.append(rel if truth else sp.Not(rel))
+        # a point of the sub-regime for the symbols the relations mention (the other symbols keep the regime's sampler)
+        s2 = z3.Solver()
+        s2.add(*P.pc)
+        point = {}
+        if s2.check() == z3.sat:
+            mdl = s2.model()
+            for sym in set().union(*[r_.free_symbols for r_ in sub]):
+                v = mdl.eval(z3.Real(str(sym)), model_completion=True)
+                try:
+                    point[sym] = sp.Rational(v.numerator_as_long(), v.denominator_as_long())
+                except Exception:
+                    pass
+        vc.ghost["sp_subregime_point"] = point
         return truth
     vc.ghost["sp_decide"] = decide
 
@@ -444,10 +475,13 @@ class Martingale(Lemma):
                 vc.interp.hooks["rpylib.distribution.univariate.uniform:Uniform.__init__"] = lambda it_, f, b: None
                 proc = vc.new("rpylib.process.levyprocess:LevyProcess", model)
                 p_before = to_sp(vc.method(proc, "process_drift"))
+                x_before = to_sp(vc.method(proc, "deterministic_path", SpVal(t)))        # what a path actually adds
                 vc.interp.setattr(model, "r", SpVal(r2))
                 p_after = to_sp(vc.method(proc, "process_drift"))
+                x_after = to_sp(vc.method(proc, "deterministic_path", SpVal(t)))
                 vc.interp.setattr(model, "r", SpVal(r))
                 vc.check_zero(nm + "::after-a-rate-update:drift-of-an-existing-simulation-process-follows-the-new-rate", lambda: sp.simplify((p_after - p_before) - (r2 - r)), samp_r)
+                vc.check_zero(nm + "::after-a-rate-update:deterministic-path-of-an-existing-simulation-process-follows-the-new-rate", lambda: sp.simplify((x_after - x_before) - (r2 - r) * t), samp_r)
             vc.interp.setattr(model, "r", SpVal(r))
             # ... and the spot is an attribute too: every route starts from the model's CURRENT spot
             s2 = S("spot_new", positive=True)
@@ -485,6 +519,13 @@ class Martingale(Lemma):
             cfv = complex(m.log_characteristic_function(t=T, x=-1j))
             return (abs(cfv - s_new * fwd) > 1e-9 * s_new or abs(np.exp(m.x0_value()) - s_new) > 1e-9 * s_new,
                     {"model": repr(m), "spot_after_update": s_new, "E[S_T]_from_the_characteristic_function": cfv.real, "forward_of_the_new_spot": float(s_new * fwd), "exp(x0_value)": float(np.exp(m.x0_value()))})
+        if "deterministic-path-of-an-existing-simulation-process" in clause:
+            from rpylib.process.levyprocess import LevyProcess
+            pr = LevyProcess(m)
+            x0_ = float(np.ravel(pr.deterministic_path(np.array([T])))[-1])
+            m.r = m.r + 0.02
+            x1_ = float(np.ravel(pr.deterministic_path(np.array([T])))[-1])
+            return (abs((x1_ - x0_) - 0.02 * T) > 1e-12, {"model": repr(m), "T": T, "deterministic_path_at_T_before": x0_, "after_r_plus_0.02": x1_})
         if "existing-simulation-process" in clause:
             from rpylib.process.levyprocess import LevyProcess
             pr = LevyProcess(m)
